@@ -294,6 +294,19 @@ harnesses! {
     #[kani::unwind(10)]
     fn c03_sfo_os1_cubic(nd) { sfo!(nd, f64, boxed64, SincInterpolationType::Cubic, 8, 1, 2, 2.0, 12, 4, "oversampling_1", grid, []); }
     #[kani::unwind(10)]
+    fn c03_sfo_os1_cubic_kf(nd) {
+        // concrete witness of F-OS1: first call of a fresh instance
+        probe::reset_flags();
+        let mut r = SincFixedOut::<f64>::new_with_interpolator(1.0, 1.0, SincInterpolationType::Cubic, probe::boxed64(8, 1), 2, 1).unwrap();
+        let mut pos = 0usize;
+        let mut xin = [0.0f64; 8];
+        let mut out = [0.0f64; 4];
+        let o = call1(nd, &mut r, &mut pos, 0, 0, &mut xin, &mut out);
+        obs_checks!(o, true, "oversampling_1");
+        probe_checks!("oversampling_1");
+        forget(r);
+    }
+    #[kani::unwind(10)]
     fn c03_sfo_os1_quadratic(nd) { sfo!(nd, f64, boxed64, SincInterpolationType::Quadratic, 8, 1, 2, 2.0, 12, 4, "oversampling_1", grid, []); }
     // control: Linear and Nearest are fine with a single sub-filter
     #[kani::unwind(10)]
